@@ -372,7 +372,8 @@ impl RoutingThread {
             txs: vec![],
             gts: vec![],
         };
-        for i in (last_shared_ancestor + 1)..=latest_block_id {
+        // (the block id in a request is the requester's choice)
+        for i in last_shared_ancestor.saturating_add(1)..=latest_block_id {
             if let Some(hash) = blockchain
                 .blockring
                 .get_longest_chain_block_hash_at_block_id(i)
